@@ -278,6 +278,7 @@ class _Ctx:
         self.byte_vars: set[str] = set()
         self.parent_names: set[str] = set()
         self.cond_env: dict[str, list] = {}       # name -> [(cond, (bits, signed))]
+        self.fmt_cond_env: dict[str, list] = {}   # name -> [(cond, struct format string)]
         args = [a.arg for a in f.node.args.args]
         self.params = args
         # bit readers/writers passed in as parameters
@@ -387,6 +388,29 @@ class _Ctx:
             self.cond_env[k] = [(c, a[k]), ('not (' + c + ')', b[k])]
             self.env.pop(k, None)
 
+        # struct format variables, alone or as one element of a tuple: fmt, width = ('>Q', 8)
+        def formats(body):
+            out = {}
+            for s in body:
+                if not (isinstance(s, ast.Assign) and len(s.targets) == 1):
+                    continue
+                pairs = []
+                t, v = s.targets[0], s.value
+                if isinstance(t, ast.Name):
+                    pairs.append((t, v))
+                elif isinstance(t, (ast.Tuple, ast.List)) and isinstance(v, (ast.Tuple, ast.List)) \
+                        and len(t.elts) == len(v.elts):
+                    pairs.extend(zip(t.elts, v.elts))
+                for tt, vv in pairs:
+                    if isinstance(tt, ast.Name) and isinstance(vv, ast.Constant) and isinstance(vv.value, str) \
+                            and re.fullmatch(r'[<>!=@]?[0-9xcbB?hHiIlLqQnNefdspP]+', vv.value) \
+                            and vv.value not in CODE_BITS:
+                        out[tt.id] = vv.value
+            return out
+        fa, fb = formats(st.body), formats(st.orelse)
+        for k in set(fa) & set(fb):
+            self.fmt_cond_env[k] = [(c, fa[k]), ('not (' + c + ')', fb[k])]
+
     def assign(self, st: ast.Assign) -> list:
         t = st.targets[0]
         v = st.value
@@ -460,6 +484,13 @@ class _Ctx:
         if e is None:
             return []
         out: list = []
+        if isinstance(e, (ast.ListComp, ast.GeneratorExp)) and len(e.generators) == 1 \
+                and not e.generators[0].ifs and self._has_io(e.elt) and not self._has_io(e.generators[0].iter):
+            # [r.get('I', 'matrix') for _ in range(9)]: the element's I/O once per iteration
+            body = self.expr_io(e.elt, None, line)
+            if not body:
+                return []
+            return [Loop(self._loop_norm(norm(e.generators[0].iter)), body, line)]
         calls = [n for n in ast.walk(e) if isinstance(n, ast.Call)]
         # innermost-first order == source order for our idioms
         handled: set[int] = set()
@@ -480,6 +511,13 @@ class _Ctx:
                 if isinstance(sub, ast.Call):
                     handled.add(id(sub))
             return fmt_items(c.args[0].value, [name], line)
+        if cn == 'struct.unpack' and len(c.args) == 2 and isinstance(c.args[0], ast.Name) \
+                and c.args[0].id in self.fmt_cond_env:
+            for sub in ast.walk(c.args[1]):
+                if isinstance(sub, ast.Call):
+                    handled.add(id(sub))
+            (c1, f1), (c2, f2) = self.fmt_cond_env[c.args[0].id]
+            return [If(c1, fmt_items(f1, [name], line), fmt_items(f2, [name], line), line)]
         if not isinstance(fn, ast.Attribute):
             return []
         recv = norm(fn.value)
